@@ -122,7 +122,8 @@ theorem handlers_after_body_and_spawned (g : Graph) (hw : wf g = true) (sched : 
       Ev.ret t i true ∈ pre → hasDone pre c) ∧
     (∀ t ok i y, (run g sched).tr = pre ++ Ev.done t ok :: post → g.cmdAt t i = some (.try_ y) →
       Ev.ret t i true ∈ pre →
-      hasDone pre (g.tryd y).body ∧ ∀ h ∈ g.handlers y, (Ev.cmd h 0 ∈ pre ∨ Ev.hacc h ∈ pre) → hasDone pre h) := by
+      hasDone pre (g.tryd y).body ∧ (∀ h ∈ g.handlers y, Ev.cmd h 0 ∈ pre → hasDone pre h) ∧
+      (∀ h ∈ g.handlers y, Ev.hacc h ∈ pre → hasDone pre h ∨ acceptedAfterCause g pre h)) := by
   have hW := (wf_iff g).mp hw
   have htr := run_traceOk hW sched
   refine ⟨fun h y hs hy hh => ?_, fun t ok i c hs hc hret => ?_, fun t ok i y hs hc hret => ?_⟩
@@ -144,7 +145,7 @@ theorem handlers_after_body_and_spawned (g : Graph) (hw : wf g = true) (sched : 
     have hcl := (htr pre _ post hs).2.1 i (List.mem_range.mpr (cmdAt_lt hc)) (cmd_of_ret hpre hret)
     have := hcl.2 hret
     rw [hc] at this
-    exact ⟨this.1, this.2.1⟩
+    exact ⟨this.1, this.2.1, this.2.2.1⟩
 
 /-- A failing body does not mark the surrounding scope as failed: a task closes with an error only
 if a command of a task of ITS OWN context (or of the root context) returned an error — and the body
@@ -183,6 +184,20 @@ theorem body_failure_contained (g : Graph) (hw : wf g = true) (sched : List Labe
   · have := (htr pre _ post hs).2
     simp only [if_true] at this
     exact this u (List.mem_range.mpr hu) hd
+
+/-- In the model the owner of a try block is blocked in the `pip:try` command until every handler that
+was accepted by the task manager has closed: in every state of every run in which the owner is not
+(any more) blocked there, an accepted handler has closed.  (The implementation deviates when the
+handler was accepted into a context that had already failed: `scope.NewChild` does not register a
+child of a scope that is done, so the owner does not wait for it — finding KF-C16-1.  The monitor
+tolerates exactly that case: the alternative `acceptedAfterCause` of `handlers_after_body_and_spawned`
+and of `handlerFate`.) -/
+theorem accepted_handlers_close_before_owner_leaves (g : Graph) (hw : wf g = true) (sched : List Label)
+    (y h : Nat) (hy : y < g.tries.length) (hh : h ∈ g.handlers y)
+    (hna : (run g sched).pc (g.tryd y).owner ≠ .afterCmd (g.tryd y).idx)
+    (hacc : Ev.hacc h ∈ (run g sched).tr) : hasDone (run g sched).tr h :=
+  accepted_closed_when_owner_leaves ((wf_iff g).mp hw)
+    (inv_reachable ((wf_iff g).mp hw) (LTS.run_reachable (sys g) sched)) hy hh hna hacc
 
 /-! ### The timed excuse -/
 
